@@ -614,7 +614,7 @@ def check(prop, tier, repo, seed, jobs):
 
 TRUSTED_BASE = [
     "pyvc symbolic executor and VC generator (this repository, /verif/pyvc)",
-    "library models in pyvc/models.py (conformance-tested against CPython)",
+    "library models in pyvc/models.py (sample-point conformance test against CPython: ./xv selftest, also run by every thorough check)",
     "z3 5.1.0 / cvc5 1.0.3 / z3 4.8.12",
     "CPython ast module (parsing of the real source)",
 ]
@@ -646,7 +646,12 @@ def main(argv=None):
     r = sub.add_parser("replay")
     r.add_argument("path")
     r.add_argument("--repo", default=REPO)
+    sub.add_parser("selftest")
     a = ap.parse_args(argv)
+    if a.cmd == "selftest":
+        from . import conformance
+
+        return conformance.run()
     if a.cmd == "check":
         tier = a.tier if a.tier in ("quick", "thorough") else "quick"
         try:
@@ -654,7 +659,15 @@ def main(argv=None):
         except ValueError:
             seed = 0
         try:
-            return check(a.prop, tier, a.repo, seed, a.jobs)
+            rc = check(a.prop, tier, a.repo, seed, a.jobs)
+            if tier == "thorough" and rc == 0:
+                # the trusted library models are re-tested against CPython on every thorough run
+                from . import conformance
+
+                if conformance.run() != 0:
+                    print("CHECKER-ERROR the library models disagree with CPython (./xv selftest)")
+                    return 3
+            return rc
         except Exception:
             print("CHECKER-ERROR " + traceback.format_exc())
             return 3
